@@ -282,4 +282,9 @@ def native_mutator_standin(timeout=1500):
     vio = []
     for mm in re.finditer(r'^NATIVE-VIOLATION \[(C\d+)\] ([^\n]*)$', out, re.M):
         vio.append(dict(tag=mm.group(1), text=mm.group(2)))
+    # a test that died without one of our own reports (e.g. a panic outside the guarded calls) is a panic of the
+    # real code on this input family: "mutators never panic" (C16)
+    if not vio and re.search(r'test \S*verif_native\S* \.\.\. FAILED', out):
+        pm = re.search(r"panicked at ([^\n]*)\n([^\n]*)", out)
+        vio.append(dict(tag='C16', text='a native stand-in test failed: ' + (pm.group(0).replace('\n', ' ')[:300] if pm else 'see output')))
     return vio, out[-1500:], 'cd %s && CARGO_TARGET_DIR=%s %s' % (CRATE, os.path.join(KROOT, 'native-target'), ' '.join(cmd))
